@@ -9,12 +9,25 @@ Correspondence (model ≈ code), two levels:
       piggy-backed / separate first response, CON and NON notifications in any order, transport
       errors, shutdown; vs the Lean message-layer model composed with the runner
       (`Aiocoap.Observe.jointStep`): datagrams (ACK / RST), pipe events and deliveries.
-Oracle: RFC 7641 §3.4 written from the RFC over the observed deliveries (c07_pipe.oracle_history,
-c07_stack.oracle_stack); the async-iterator interface is checked by the oracle only.
+  (i) the real `ClientObservation._Iterator` (through `ClientObservation.__aiter__` / `callback` /
+      `error`, a consumer task per `__anext__`) driven operation by operation — push, push_err,
+      `__anext__` starting, the loop resuming the consumer, the consumer task being cancelled — vs
+      the Lean iterator model with future identities (`Aiocoap.Observe.Iter.step`, `openOps`):
+      outputs and state (slot content, error kept aside, what the consumer is suspended on) after
+      every operation (harness/c07_iter.py).
+  (c) oracle only: the application's view through `Context.request()` with the default
+      BlockwiseRequest and with handle_blockwise=False over a token interface of the harness
+      (harness/c07_app.py): callbacks and async iteration, consumers that are busy or start late,
+      transport failure of the initial request.
+Oracle: RFC 7641 §3.4 and the termination clauses written from the RFC / the property over the
+observed deliveries (c07_pipe.oracle_history / oracle_iterator, c07_stack.oracle_stack,
+c07_iter.oracle_iter, c07_app.oracle_app).
 """
 import asyncio
 import itertools
 
+import c07_app
+import c07_iter
 import c07_pipe
 import c07_stack
 import msglayer
@@ -25,14 +38,25 @@ RULE = ("(a) exhaustive: every sequence (with repetitions) of 5-6 notifications 
         "around 0, +-2^23 with gaps 0, 128 s -1/0/+1 tick; every 3-step history of (stale|dup|fresh) x "
         "gap in {0,1,R-1,R,R+1,2R+1}; every position x kind of terminating event (2.xx/4.xx/5.xx "
         "without Observe, last or not, last notification, six exception kinds) followed by more "
-        "notifications; application cancels at every position; then random histories from the seed. "
-        "(b) scripted observations over the real UDP stack. A case is non-trivial when at least one "
-        "notification was handed over and one was suppressed or the observation ended.")
+        "notifications, each with attentive / lazy / busy / late async-iterator consumers; application "
+        "cancels at every position, in particular observation.cancel() before the first event followed "
+        "by every kind of first event; then random histories from the seed. "
+        "(i) every sequence of up to 5 (thorough: 7) iterator operations over {push, push_err(cancelled), "
+        "push_err(network error), __anext__, resume, cancel consumer}, every such sequence of up to 4 "
+        "after __aiter__ on an observation with every kind of past, then random longer ones. "
+        "(b) scripted observations over the real UDP stack, with and without a busy consumer, "
+        "observation.cancel() before the first response. (c) application-level scenarios through "
+        "Context.request() (default BlockwiseRequest and handle_blockwise=False). A case is non-trivial "
+        "when at least one notification was handed over and one was suppressed or the observation ended.")
 TRUSTED = ["harness clock standing in for `time` inside aiocoap.protocol; wrapper on the "
            "instance's _stop_interest (harness/c07_pipe.py)",
+           "read-only peeks at _Iterator._future / _deferred_error and Task._fut_waiter for the state part of "
+           "the level (i) comparison (harness/c07_iter.py); fake token interface of level (c) (harness/c07_app.py)",
            "virtual-clock event loop and fake-socket UDP stack of the harness (vloop.py, netsim.py)"]
-ASSUMPTIONS = ["the asyncio future behind Request.response and the lossy async iterator "
-               "(ClientObservation._Iterator) are runtime: exercised by correspondence and oracle, not modelled",
+ASSUMPTIONS = ["asyncio semantics the iterator model relies on (await on a done future does not suspend; "
+               "Task.cancel() cancels the awaited future if pending, else throws at the wake-up) are "
+               "exercised by the level (i) correspondence, not proved",
+               "BlockwiseRequest._run_observation (consumer of the inner iterator) is not modelled: oracle only",
                "time.time() does not go backwards by more than the model's Nat ticks can express (harness clock is monotone)"]
 
 M23, M24 = 1 << 23, 1 << 24
@@ -103,7 +127,11 @@ def fam_terminators():
                     evs.append(notif(t + 7, 2001, 79))
                     its = (None, {"mode": "attentive", "start": 0}, {"mode": "lazy", "start": 0},
                            {"mode": "lazy", "start": min(2, len(evs))},
-                           {"mode": "attentive", "start": 1})
+                           {"mode": "attentive", "start": 1},
+                           {"mode": "busy", "start": 0, "work": 1},
+                           {"mode": "busy", "start": 0, "work": 3},
+                           {"mode": "busy", "start": min(pos + 1, len(evs)), "work": 2},
+                           {"mode": "lazy", "start": min(pos + 2, len(evs))})
                     if term[0] == "X" and term[2] >= 4:
                         its = (None,)   # _Iterator.__del__ prints non-NetworkErrors on stderr
                     for it in its:
@@ -132,6 +160,21 @@ def fam_app():
     yield {"observe": True, "iter": None,
            "events": [notif(0, 1, 0), ["OC", 1], ["OC", 2], notif(3, 2, 1)]}
     yield {"observe": False, "iter": None, "events": [["RC", 1], notif(3, None, 1, last=1)]}
+
+
+def fam_cancel_first():
+    """observation.cancel() (and response.cancel()) before the first event, then every kind of first
+    event, then more"""
+    firsts = ([["M", 5, c, o, 40, last] for c in (69, 132) for o in (None, 7) for last in (0, 1)] +
+              [["X", 5, k] for k in range(6)])
+    for first in firsts:
+        for pre in ([["OC", 1]], [["OC", 1], ["RC", 2]], [["RC", 1], ["OC", 2]], [["OC", 1], ["OC", 2]]):
+            for tail in ([], [notif(9, 8, 41)], [notif(9, 8, 41), ["M", 12, 132, None, 42, 1]],
+                         [notif(9, 8, 41), notif(10, 9, 43), ["RC", 11], notif(12, 10, 44)]):
+                if first[0] == "X" or first[5] or first[3] is None:
+                    # the pipe has ended: an exception after that is outside C07
+                    tail = [e for e in tail if e[0] != "X"]
+                yield {"observe": True, "iter": None, "events": pre + [first] + tail}
 
 
 DELTAS = [1, 1, 1, 2, 3, 0, -1, -2, M23 - 1, M23, M23 + 1, -(M23 - 1), -M23, -(M23 + 1), M24 - 1]
@@ -182,6 +225,8 @@ def random_history(rng, R):
         it = {"mode": "lazy", "start": rng.randrange(0, len(out) + 1)}
     elif r < 0.6:
         it = {"mode": "attentive", "start": rng.randrange(0, len(out) + 1)}
+    elif r < 0.8:
+        it = {"mode": "busy", "start": rng.randrange(0, len(out) + 1), "work": rng.randrange(1, 5)}
     if any(e[0] == "X" and e[2] >= 4 for e in out):
         it = None       # _Iterator.__del__ reports exceptions that are not NetworkErrors on stderr
     return {"observe": observe, "events": out, "iter": it}
@@ -194,6 +239,7 @@ def level_a_cases(env, R):
     fams.append(("timing", list(fam_timing(R))))
     fams.append(("terminators", list(fam_terminators())))
     fams.append(("app", list(fam_app())))
+    fams.append(("cancel-first", list(fam_cancel_first())))
     wrap = [M24 - 2, M24 - 1, 0, 1]
     half = [5, 5 + M23 - 1, 5 + M23, 5 + M23 + 1]
     over = [0, M24 - 1, M24, M24 + 1]
@@ -212,7 +258,7 @@ def level_a_cases(env, R):
 
 # ------------------------------------------------------------------------------ generators (b)
 
-def stack_script(rng, R, forced=None):
+def stack_script(rng, R, forced=None, consumer=None):
     """one observation over the UDP stack: request, first response, notifications (CON/NON, any
     order, duplicates, forged), possibly a terminating event, then more notifications"""
     TOK = c07_stack.TOKEN
@@ -220,7 +266,12 @@ def stack_script(rng, R, forced=None):
     evs = [["S", 0, 0, 0, False, True, None, rel, 1, None, 0, 4]]
     t = 3
     cur = rng.choice([0, 1, 7, M23 - 2, M23, M24 - 3, M24 - 1, rng.randrange(M24)])
-    first = forced or rng.choice(["piggy"] * 5 + ["sep"] * 5 + ["noobs", "rst", "err", "shutdown", "cancel"])
+    first = forced or rng.choice(["piggy"] * 5 + ["sep"] * 5 + ["noobs", "rst", "err", "shutdown", "cancel"] +
+                                 ["oc+piggy", "oc+sep", "oc+noobs", "oc+rst", "oc+err", "oc+shutdown"])
+    oc_first = first.startswith("oc+")
+    if oc_first:
+        first = first[3:]
+        evs.append(["OC", rng.choice([1, 2]), 0])
     if not rel and first in ("piggy", "rst"):
         first = "sep"
     mid = 300
@@ -253,8 +304,8 @@ def stack_script(rng, R, forced=None):
         t += rng.choice([1, 2, 7, 1000, R - 1, R, R + 1, rng.randrange(1, 2 * R)])
         if term_at is not None and i == term_at:
             k = rng.choice(["4.04", "4.04", "2.05", "err", "shutdown", "oc", "cancel"])
-            if k == "oc" and not established:
-                k = "4.04"      # observation.cancel() on a finished observation is the caller's bug
+            if k == "oc" and (oc_first or first in ("noobs", "rst", "err", "shutdown")):
+                k = "4.04"      # observation.cancel() twice / on a finished observation raises in the caller
             if k in ("4.04", "2.05"):
                 evs.append(R_(rng.choice(["CON", "NON"]), 132 if k == "4.04" else 69, mid, None, 50 + i))
                 mid += 1
@@ -288,8 +339,43 @@ def stack_script(rng, R, forced=None):
             evs.append(R_(mt, rng.choice([132, 160]), m, v, 10 + i))
         else:
             evs.append(R_(mt, 69, m, v, 10 + i))
+    sc = {"events": evs, "rules": [], "draws": [], "mid": c07_stack.REQ_MID, "token": 32}
+    if consumer is None:
+        consumer = rng.random() < 0.4
+    if consumer and not oc_first and not any(e[0] in ("OC", "C") for e in evs):
+        work = rng.choice([0, 1, 3, 50, 5000, R // 2])
+        sc["consumer"] = {"work": work}
+        t += (n + 4) * work
     evs.append(["A", t + 10])
-    return {"events": evs, "rules": [], "draws": [], "mid": c07_stack.REQ_MID, "token": 32}
+    return sc
+
+
+def stack_cancel_first_scripts():
+    """observation.cancel() before the first event x every kind of first event, over the wire"""
+    TOK = c07_stack.TOKEN
+    out = []
+    for rel in (True, False):
+        firsts = {"piggy-obs": [["R", 3, 0, False, "ACK", 69, c07_stack.REQ_MID, TOK, 5, 1]],
+                  "piggy-noobs": [["R", 3, 0, False, "ACK", 69, c07_stack.REQ_MID, TOK, None, 1]],
+                  "piggy-404": [["R", 3, 0, False, "ACK", 132, c07_stack.REQ_MID, TOK, None, 1]],
+                  "rst": [["R", 3, 0, False, "RST", 0, c07_stack.REQ_MID, "-", None, 0]],
+                  "sep-con-obs": [["R", 3, 0, False, "CON", 69, 300, TOK, 5, 1]],
+                  "sep-non-noobs": [["R", 3, 0, False, "NON", 69, 300, TOK, None, 1]],
+                  "err": [["E", 3, 0]],
+                  "shutdown": [["X", 3]]}
+        for name, fev in firsts.items():
+            if not rel and name.startswith(("piggy", "rst")):
+                continue
+            for oc_t in (1, 2):
+                for extra in ([], [["C", 2 if oc_t == 1 else 1, 0]]):
+                    evs = [["S", 0, 0, 0, False, True, None, rel, 1, None, 0, 4], ["OC", oc_t, 0]] + extra + fev + [
+                        ["R", 7, 0, False, "CON", 69, 301, TOK, 6, 2],
+                        ["R", 9, 0, False, "NON", 132, 302, TOK, None, 3],
+                        ["R", 11, 0, False, "CON", 69, 303, TOK, 7, 4],
+                        ["A", 30]]
+                    evs.sort(key=lambda e: e[1])
+                    out.append({"events": evs, "rules": [], "draws": [], "mid": c07_stack.REQ_MID, "token": 32})
+    return out
 
 
 def stack_boundary_scripts(R):
@@ -308,14 +394,21 @@ def stack_boundary_scripts(R):
                            ["R", 5 + gap, 0, False, mt, 132, 302, TOK, None, 4],
                            ["R", 6 + gap, 0, False, mt, 69, 303, TOK, (v2 + 1) % M24, 5],
                            ["A", 20 + gap]]
-                    out.append({"events": evs, "rules": [], "draws": [], "mid": c07_stack.REQ_MID, "token": 32})
+                    sc = {"events": evs, "rules": [], "draws": [], "mid": c07_stack.REQ_MID, "token": 32}
+                    if (len(out) // 2) % 2:
+                        # the final response (t = 5 + gap) arrives while the consumer is busy with
+                        # the notification before it
+                        sc["consumer"] = {"work": 3}
+                    out.append(sc)
     return out
 
 
 def strip_pipe_events(line):
     """the pipe events of request 0 are what the runner consumes (C02 compares them); the
     harness's own listener on the pipe misses the event during which the pipe ends"""
-    return "|".join(";".join(x for x in g.split(";") if not x.startswith(("r:0:", "f:0:")))
+    # (msglayer.canon_model_line appends `~<tables>` to every group since the message-layer check
+    # compares the managers' tables; the joint driver line of C07 carries no tables)
+    return "|".join(";".join(x for x in g.split("~")[0].split(";") if not x.startswith(("r:0:", "f:0:")))
                     for g in line.split("|"))
 
 
@@ -325,8 +418,12 @@ def run_level_b(env, rep, R):
     if not env.thorough:
         bnd = bnd[::2]
     scripts += bnd
-    for first in ("piggy", "sep", "noobs", "rst", "err", "shutdown", "cancel"):
+    scripts += stack_cancel_first_scripts()
+    for first in ("piggy", "sep", "noobs", "rst", "err", "shutdown", "cancel",
+                  "oc+piggy", "oc+sep", "oc+noobs", "oc+rst", "oc+err", "oc+shutdown"):
         scripts += [stack_script(env.rng, R, forced=first) for _ in range(env.scale(6, 100))]
+    for first in ("piggy", "sep"):
+        scripts += [stack_script(env.rng, R, forced=first, consumer=True) for _ in range(env.scale(25, 400))]
     scripts += [stack_script(env.rng, R) for _ in range(env.scale(350, 6000))]
     lines, impl, cases = [], [], []
     for sc in scripts:
@@ -337,12 +434,19 @@ def run_level_b(env, rep, R):
         rep.case(case, nontrivial=(n_cb >= 1 and (n_eb >= 1 or "RST:0" in res["impl_line"])),
                  sample_every=200)
         rep.count("b:scripts")
+        if sc.get("consumer"):
+            rep.count("b:consumer=" + ("busy" if sc["consumer"]["work"] else "attentive"))
+        evk = [e[0] for e in sc["events"]]
+        if "OC" in evk and all(e[0] not in ("R", "E", "X") for e in sc["events"][:evk.index("OC")]):
+            rep.count("b:cancel-before-first")
         rep.count("b:callbacks", n_cb)
         rep.count("b:rst-sent", res["impl_line"].count("RST:0:"))
         rep.count("b:ack-sent", res["impl_line"].count("ACK:0:"))
         for tok in res["concrete"]:
             k = tok.split("@")[0]
             rep.count("b:event=" + k + (":" + tok.split(":")[3] if k == "R" else ""))
+        for tok in (res.get("iter") or []):
+            rep.count("b:consumer-saw=" + tok.split(":")[0])
         for e in ("NotObservable", "ObservationCancelled", "T0", "T2", "T3"):
             if ":eb:" + e in res["impl_line"]:
                 rep.count("b:end=" + e)
@@ -410,8 +514,175 @@ async def run_level_a(env, rep, bench, R, fams):
             impl.append(res["impl"])
             cases.append({"level": "a", "history": h})
         compare(env, rep, cases, lines, impl, what="Request._run over a real Pipe (%s)" % fam)
-        if fam.startswith("perm") or fam in ("pairs", "timing", "terminators", "app"):
+        if fam.startswith("perm") or fam in ("pairs", "timing", "terminators", "app", "cancel-first"):
             rep.exhaustive_parts.append(f"{fam}: {len(hs)} histories")
+
+
+# ------------------------------------------------------------------------------ level (i)
+
+ITER_ALPHA = ["P", "EC", "ET2", "N", "W", "X"]
+ITER_PASTS = [[], ["cb:1"], ["cb:1", "cb:2"], ["cb:1", "eb:C"], ["cb:1", "cb:2", "eb:C"], ["eb:N"],
+              ["eb:T2"], ["cb:1", "cb:2", "eb:T1"], ["cb:1", "eb:T0"]]
+
+
+def number_pushes(seq, start=1):
+    ops, k = [], start
+    for o in seq:
+        if o == "P":
+            ops.append("P%d" % k)
+            k += 1
+        else:
+            ops.append(o)
+    return ops
+
+
+def level_i_cases(env):
+    fams = [("corpus", [c["iterator"] for _, c in load_corpus("C07") if "iterator" in c])]
+    L = env.scale(5, 7)
+    ex = [{"pre": [], "ops": number_pushes(seq)} for n in range(0, L + 1)
+          for seq in itertools.product(ITER_ALPHA, repeat=n)]
+    fams.append(("exhaustive<=%d" % L, ex))
+    La = env.scale(3, 4)
+    fams.append(("aiter<=%d" % La, [{"pre": past, "ops": number_pushes(seq, 10)} for past in ITER_PASTS
+                                    for n in range(0, La + 1)
+                                    for seq in itertools.product(["P", "EC", "N", "W", "X"], repeat=n)]))
+    rnd = []
+    alpha = ITER_ALPHA + ["EN", "ET0", "ET1", "ET3", "P", "N", "W", "N", "W"]
+    for _ in range(env.scale(3000, 120000)):
+        n = env.rng.randrange(6, 16)
+        seq, err = [], False
+        wf = env.rng.random() < 0.7     # mostly what ClientObservation can produce
+        for _ in range(n):
+            o = env.rng.choice(alpha)
+            if wf and err and o[0] in "PE":
+                o = env.rng.choice(["N", "W", "X"])
+            if o[0] == "E":
+                err = True
+            seq.append(o)
+        past = env.rng.choice(ITER_PASTS) if env.rng.random() < 0.2 else []
+        if wf and any(d.startswith("eb:") for d in past):
+            seq = [o if o[0] not in "PE" else "N" for o in seq]
+        rnd.append({"pre": past, "ops": number_pushes(seq, 10)})
+    fams.append(("random", rnd))
+    return fams
+
+
+async def run_level_i(env, rep, aiocoap):
+    bench = c07_iter.IterBench(aiocoap)
+    for fam, cs in level_i_cases(env):
+        lines, impl, cases = [], [], []
+        for c in cs:
+            line, drained, _ = await bench.run_case(c)
+            case = {"level": "i", "iterator": c}
+            outs = line.count("/") - line.count("./")
+            rep.case(case, nontrivial=("i" in line and ("stop" in line or "raise" in line or
+                                                         any(d != "cancelled" for d in drained))),
+                     sample_every=40000)
+            rep.count("i:family=" + fam.split("<")[0])
+            rep.count("i:ops=%d" % min(len(c["ops"]), 16))
+            for o in c["ops"]:
+                rep.count("i:op=" + (o[0] if o[0] in "PE" else o))
+            if c["pre"]:
+                rep.count("i:aiter-after=" + ("end" if any(d.startswith("eb") for d in c["pre"]) else "items"))
+            if not c07_iter.well_formed(c):
+                rep.count("i:malformed=feed-after-error")
+            if line == "out-of-model":
+                rep.count("i:out-of-model")
+            else:
+                for tok in ("stop", "raise", "cancelled"):
+                    if tok in line:
+                        rep.count("i:out=" + tok)
+                if "o" in [g[-1] for g in line.split() if "/" in g]:
+                    rep.count("i:suspended-on-older-future")
+                if any(g.split("/")[1][-2] != "-" for g in line.split() if "/" in g):
+                    rep.count("i:error-kept-aside")
+            v, key = c07_iter.oracle_iter(c, line, drained)
+            if v:
+                rep.oracle_fail(case, v + " | observed: " + line + " then " + ",".join(drained), key="iter:" + key)
+            lines.append(c07_iter.driver_line(c))
+            impl.append(line)
+            cases.append(case)
+        # the driver and the bench must agree on what is outside the model, too
+        outs = compare(env, rep, cases, lines, impl, what="ClientObservation._Iterator (%s)" % fam)
+        for case, m, i in zip(cases, outs, impl):
+            if (m == "out-of-model") != (i == "out-of-model"):
+                rep.disagree(case, m, i, what="iterator: out-of-model on one side only")
+        if not fam.startswith(("random", "corpus")):
+            rep.exhaustive_parts.append(f"iterator {fam}: {len(cs)} operation sequences")
+
+
+# ------------------------------------------------------------------------------ level (c)
+
+APP_SCRIPTS = [
+    [["M", 69, 10, 1], ["M", 69, 11, 2], ["M", 69, 12, 3], ["M", 132, None, 4]],
+    [["M", 69, 10, 1], ["M", 69, 11, 2], ["M", 69, 9, 3], ["X", 2]],
+    [["M", 69, 10, 1], ["M", 132, None, 2]],
+    [["M", 69, 10, 1], ["M", 69, None, 2]],
+    [["M", 69, 10, 1], ["M", 69, 11, 2], ["M", 69, 11, 3], ["M", 69, 8, 4], ["M", 160, None, 5]],
+    [["X", 2]], [["X", 0]], [["X", 1]],
+    [["M", 69, None, 1]],
+    [["M", 132, None, 1]],
+    [["M", 69, 10, 1], ["M", 69, 11, 2], ["M", 69, 12, 3]],
+    [["M", 69, (1 << 24) - 1, 1], ["M", 69, 0, 2], ["M", 69, (1 << 24) - 2, 3], ["M", 69, 1, 4]],
+    [["M", 69, 10, 1], ["X", 1]],
+    [["M", 69, 10, 1], ["X", 0]],
+]
+APP_GAPS = [(0, 0, 0, 0, 0), (4, 4, 4, 4, 4), (4, 0, 0, 0, 0), (2, 1, 0, 1, 0), (0, 3, 0, 0, 1),
+            (4, 4, 4, 0, 0), (4, 4, 0, 4, 0), (1, 1, 1, 1, 1)]
+APP_CONSUMERS = [("callbacks", 0, 0), ("iter", 0, 0), ("iter", 0, 2), ("iter", 0, 5), ("iter", 3, 0),
+                 ("iter", 6, 1), ("iter", 12, 0)]
+
+
+def level_c_cases(env):
+    out = [c["app"] for _, c in load_corpus("C07") if "app" in c]
+    for bw in (False, True):
+        for cons, op, work in APP_CONSUMERS:
+            for gaps in APP_GAPS:
+                for script in APP_SCRIPTS:
+                    out.append({"blockwise": bw, "consumer": cons, "open": op, "work": work,
+                                "arrivals": [[g] + a for g, a in zip(gaps, script)]})
+    for _ in range(env.scale(400, 20000)):
+        n = env.rng.randrange(1, 7)
+        cur = env.rng.choice([0, 5, (1 << 23) - 1, (1 << 24) - 2])
+        arr = []
+        for i in range(n):
+            r = env.rng.random()
+            g = env.rng.choice([0, 0, 0, 1, 2, 4])
+            if r < 0.75:
+                cur = (cur + env.rng.choice([1, 1, 2, 0, -1, 1 << 23, (1 << 23) - 1])) % (1 << 24)
+                arr.append([g, "M", 69, cur, i + 1])
+            elif r < 0.9:
+                arr.append([g, "M", env.rng.choice([69, 132, 160]), None, i + 1])
+                break
+            else:
+                arr.append([g, "X", env.rng.randrange(3)])
+                break
+        cons, op, work = env.rng.choice(APP_CONSUMERS)
+        out.append({"blockwise": env.rng.random() < 0.6, "consumer": cons, "open": op, "work": work,
+                    "arrivals": arr})
+    return out
+
+
+async def run_level_c(env, rep, aiocoap):
+    bench = c07_app.AppBench(aiocoap)
+    for sc in level_c_cases(env):
+        res = await bench.run(sc)
+        case = {"level": "c", "app": sc}
+        items = [x for x in res["seen"] if x[0] == "item"]
+        rep.case(case, nontrivial=bool(items) and len(res["seen"]) > len(items), sample_every=3000)
+        rep.count("c:scenarios")
+        rep.count("c:api=" + ("blockwise" if sc["blockwise"] else "plain") + ":" + sc["consumer"] +
+                  (":late" if sc.get("open") else "") + (":busy" if sc.get("work") else ""))
+        if sc["arrivals"][0][1] == "X":
+            rep.count("c:first-event-transport-error:" + ("blockwise" if sc["blockwise"] else "plain"))
+        if any(a[0] == 0 for a in sc["arrivals"][1:]):
+            rep.count("c:back-to-back")
+        for x in res["seen"]:
+            if x[0] != "item":
+                rep.count("c:end=" + x[0] + (":" + x[1] if len(x) > 1 else ""))
+        v, key = c07_app.oracle_app(sc, res)
+        if v:
+            rep.oracle_fail(case, v, key=key)
 
 
 def run(env, rep):
@@ -423,6 +694,8 @@ def run(env, rep):
         loop = asyncio.new_event_loop()
         try:
             loop.run_until_complete(run_level_a(env, rep, bench, R, fams))
+            loop.run_until_complete(run_level_i(env, rep, aiocoap))
+            loop.run_until_complete(run_level_c(env, rep, aiocoap))
         finally:
             loop.close()
     finally:
@@ -431,10 +704,18 @@ def run(env, rep):
     # every branch of the model must have been exercised (else the run proves nothing: exit 2)
     need = ["a:end=NotObservable", "a:end=ObservationCancelled", "a:end=NetworkError", "a:end=MessageError",
             "a:end=none", "a:event=OC", "a:event=RC", "a:event=M:noobs", "a:iterator=attentive",
-            "a:iterator=lazy", "b:end=NotObservable", "b:end=ObservationCancelled", "b:end=T2", "b:end=T3",
+            "a:iterator=lazy", "a:iterator=busy", "a:iterator=lazy:late", "a:family=cancel-first",
+            "i:op=P", "i:op=E", "i:op=N", "i:op=W", "i:op=X", "i:out=stop", "i:out=raise",
+            "i:out=cancelled", "i:suspended-on-older-future", "i:error-kept-aside", "i:aiter-after=end",
+            "i:aiter-after=items", "i:malformed=feed-after-error",
+            "c:first-event-transport-error:blockwise", "c:first-event-transport-error:plain",
+            "c:back-to-back", "c:end=stop", "c:end=raise:NetworkError", "c:end=eb:ObservationCancelled",
+            "b:cancel-before-first", "b:consumer=busy", "b:end=NotObservable", "b:end=ObservationCancelled", "b:end=T2", "b:end=T3",
             "b:rst-sent", "b:ack-sent", "b:event=R:CON", "b:event=R:NON", "b:callbacks"]
     missing = [k for k in need if not rep.hist.get(k)]
-    if missing:
+    if missing and not (rep.oracle_failures or rep.disagreements):
+        # (several of these are counted on what the implementation did: when it misbehaves the
+        # violation is what has to be reported, not the hole it leaves in the coverage)
         raise HarnessError("generators did not reach: " + ", ".join(missing))
     if R != c07_pipe.RFC_RESET_TICKS:
         rep.notes.append(f"implementation's OBSERVATION_RESET_TIME is {R} ticks, RFC 7641 says 128 s")
@@ -452,6 +733,22 @@ def replay(env, case):
             bench.close()
         v, _ = c07_pipe.oracle_history(case["history"], res)
         return v and (v + " | observed: " + res["impl"])
+    if case.get("level") == "i":
+        loop = asyncio.new_event_loop()
+        try:
+            line, drained, _ = loop.run_until_complete(c07_iter.IterBench(aiocoap).run_case(case["iterator"]))
+        finally:
+            loop.close()
+        v, _ = c07_iter.oracle_iter(case["iterator"], line, drained)
+        return v and (v + " | observed: " + line + " then " + ",".join(drained))
+    if case.get("level") == "c":
+        loop = asyncio.new_event_loop()
+        try:
+            res = loop.run_until_complete(c07_app.AppBench(aiocoap).run(case["app"]))
+        finally:
+            loop.close()
+        v, _ = c07_app.oracle_app(case["app"], res)
+        return v
     if case.get("level") == "b":
         res = c07_stack.run_stack(case["script"])
         v, _ = c07_stack.oracle_stack(case["script"], res)
